@@ -4,4 +4,5 @@ namespace SleapVerif.Arch
 theorem tableUnet_24_r1 : tableUnet 24 ⟨1, 1⟩ = true := by decide +kernel
 theorem tableUnet_24_r32 : tableUnet 24 ⟨3, 2⟩ = true := by decide +kernel
 theorem tableUnet_24_r2 : tableUnet 24 ⟨2, 1⟩ = true := by decide +kernel
+theorem tableUnetCpb1_24 : tableUnetCpb1 24 = true := by decide +kernel
 end SleapVerif.Arch
